@@ -1,4 +1,5 @@
 import AasVerif.Model.JsonSchemaWire
+import AasVerif.Model.JsonSchemaClosed
 namespace AasVerif.Drive.C11
 open AasVerif AasVerif.JsonSchema AasVerif.JsonSchema.Wire
 
@@ -11,6 +12,7 @@ def rName : R → String
   | .yes => "yes" | .no => "no" | .out => "out"
 
 /-- * `gen <mm>` → `ok <json of the definitions, keys sorted>` | `err` | `crash:<PythonExceptionType>`
+    * `closed <mm>` → `1`/`0`: the hypothesis `refsClosed` of `Props.C11.refs_resolve`
     * `val <mm> <k> (<definition name> <json>)*k` → `ok <k verdict characters 1/0/f>` | `err` | `crash:…`
       (each document is validated against `{"$ref": "#/definitions/<name>"}`)
     * `pat <pattern> <k> <text>*k` → `ok <fixed pattern text> <k × y/n/o>` | `crash:…`
@@ -23,6 +25,10 @@ def handle : List String → Option String
     | .ok defs => some ("ok " ++ showJson (defsToJson defs))
     | .err => some "err"
     | .crash c => some ("crash:" ++ c.pyName)
+  | "closed" :: ts => do
+    let (mm, r) ← pMM ts
+    if !r.isEmpty then none
+    some (if refsClosed mm then "1" else "0")
   | "val" :: ts => do
     let (mm, r) ← pMM ts
     let (docs, r) ← pCounted (fun ts => do
